@@ -8,7 +8,9 @@ SEEDED = "/verif/seeded"
 EXTRA = {"C01-2": ["C07"], "C04-1": ["C07"], "C06-2": ["C07"], "C03-b1": ["C07"], "C12-1": ["C13", "C12"], "C12-b2": ["C13"],
          "C01-1": ["C04", "C05", "C18"], "C04-2": ["C05"], "C15-1": ["C05"], "C18-2": ["C04"], "C11-2": ["C17"], "C17-1": ["C11"],
          "C02-1": [], "C19-1": ["C06"], "C19-2": ["C05"], "C10-1": ["C09"], "C13-2": ["C08"], "C07-2": ["C08", "C16"], "C09-1": ["C10", "C12"],
-         "C09-2": ["C10"], "C08-b2": ["C12"], "C16-2": ["C07"]}
+         "C09-2": ["C10"], "C08-b2": ["C12"], "C16-2": ["C07"],
+         "C03-r2": ["C07"], "C04-r2": ["C07"], "C01-s1": ["C07"], "C03-s1": ["C07"], "C04-s1": ["C07"], "C04-s2": ["C13"],
+         "C11-s1": ["C12", "C13"], "C02-s2": ["C01"], "C09-s1": ["C01"]}
 def run_one(name, checks):
     d = os.path.join(SEEDED, name)
     wt = tempfile.mkdtemp(prefix="hsv-mx-", dir="/tmp"); os.rmdir(wt)
